@@ -67,6 +67,18 @@ def run(index, tier="quick", seed=0) -> Result:
                     f"(`{sq[0].src()[:60]}`): a batch with exactly one non-zero q loses that axis")
         else:
             res.ok("FF-3", label, nontrivial=nsq > 0)
+        # FF-5 the q -> 0 branch is selected with a tolerance: q projected into a face plane is a difference and is
+        # only zero up to rounding for a q along the normal of a face that is not axis-aligned
+        zsel = [e for e in r["events"] if e.type == "cmp" and e.func is fn and "q" in (e.left.pdeps | e.right.pdeps)
+                and (e.right.is_number_const() and e.right.const == 0 or e.left.is_number_const() and e.left.const == 0)]
+        if zsel and own:
+            exact = [e for e in zsel if e.form == "compare" and e.op in ("Eq", "NotEq")]
+            if exact:
+                res.bad("FF-5", f"{label}:exact-zero", exact[0].where(), f"{label} selects the q = 0 branch with the exact test `{exact[0].src()[:40]}`: a wave vector "
+                        f"along the normal of a rotated face leaves an in-plane remainder of ~1e-16 and the edge sum is divided by its square "
+                        f"(F discontinuous as q becomes parallel to a face normal)")
+            else:
+                res.ok("FF-5", label)
         if not own:
             continue
         # FF-2 zero branch
